@@ -106,7 +106,7 @@ theorem attrsStep_others (cfg : Rels.Cfg) (rest : List (Option (Rels.B × Rels.B
 
 theorem attrsStep_rel (r : RelDesc) (h : r.OK) :
     Rels.attrsStep Rels.xlsbCfg r.attrs (none, none) = .ok (some r.id, some r.target) := by
-  obtain ⟨h1, h2, h3, h4⟩ := h
+  obtain ⟨_, h1, h2, h3, h4⟩ := h
   have hne : Rels.nmTarget ≠ Rels.nmId := by decide
   have ha : Rels.xlsbCfg.appendId = false := rfl
   have hpost : ∀ acc, Rels.attrsStep Rels.xlsbCfg (r.post.map some) acc = .ok acc := by
@@ -138,7 +138,8 @@ theorem readRelsGo_items : ∀ (items : List RelItem) (acc : List (Rels.B × Rel
     cases i with
     | rel r =>
       simp only [List.map_cons, List.cons_append, RelItem.ev, Rels.readRelsGo]
-      have : Rels.isRel Rels.xlsbCfg Rels.nmRelationship = true := by decide
+      have : Rels.isRel Rels.xlsbCfg r.name = true := by
+        simp only [Rels.isRel, Rels.xlsbCfg, if_true, hi.1, beq_self_eq_true]
       rw [this, if_pos rfl, attrsStep_rel r hi]
       simp only [Rels.xlsbCfg, if_true, declaredRels]
       exact ih _
@@ -147,7 +148,7 @@ theorem readRelsGo_items : ∀ (items : List RelItem) (acc : List (Rels.B × Rel
       exact ih _
     | elem n a =>
       have hn : Rels.isRel Rels.xlsbCfg n = false := by
-        simp only [Rels.isRel, Rels.xlsbCfg, Bool.false_eq_true, if_false, beq_eq_false_iff_ne, ne_eq]
+        simp only [Rels.isRel, Rels.xlsbCfg, if_true, beq_eq_false_iff_ne, ne_eq]
         exact hi
       simp only [List.map_cons, List.cons_append, RelItem.ev, Rels.readRelsGo, hn, Bool.false_eq_true, if_false, declaredRels]
       exact ih _
@@ -236,7 +237,7 @@ theorem declaredRels_targets : ∀ (items : List RelItem) (acc : List (Rels.B ×
     apply declaredRels_targets rest _ (fun x hx => h x (List.mem_cons_of_mem _ hx))
     intro r hr
     rcases List.mem_cons.mp hr with rfl | hr'
-    · exact (h (.rel d) (List.mem_cons_self ..)).2.2.2
+    · exact (h (.rel d) (List.mem_cons_self ..)).2.2.2.2
     · exact ha r hr'
   | .close _ :: rest, acc, h, ha => declaredRels_targets rest acc (fun x hx => h x (List.mem_cons_of_mem _ hx)) ha
   | .elem _ _ :: rest, acc, h, ha => declaredRels_targets rest acc (fun x hx => h x (List.mem_cons_of_mem _ hx)) ha
@@ -315,7 +316,7 @@ theorem bundleSh_cases (rels : List (Text × String)) (buf : Bytes) :
           | none => exact Or.inr ⟨_, rfl⟩
           | some vis =>
             simp only
-            cases kindOfPath Gen.xlsbKindTable ("xl/".toList ++ target.toList) with
+            cases kindOfPath Gen.xlsbKindTable (xlsxPath target.toList) with
             | none => exact Or.inr ⟨_, rfl⟩
             | some typ =>
               simp only
